@@ -156,7 +156,7 @@ class Verifier(Engine):
             entry.pc = list(st.pc)
             self.vm_checkpoint(st)
         outs = self.run_block(fsrc.node.body, st, fx)
-        for u in c.uses:
+        for u in list(c.uses) + list(c.opts.get("hints", [])):
             if u["after"] not in fx.used:
                 raise CheckerError("stale lemma use: no statement %r in %s" % (u["after"], c.func))
         nret = 0
@@ -221,11 +221,18 @@ class Verifier(Engine):
         for s in stmts:
             nxt = []
             uses = [u for u in fx.contract.uses if u["after"] == stmt_header(s)] if fx.contract.uses else []
+            hints = [u for u in fx.contract.opts.get("hints", []) if u["after"] == stmt_header(s)]
             for state in cur:
                 for kind, payload, s2 in self.run_stmt(s, state, fx):
                     if kind == NORMAL:
                         for u in uses:
                             self.use_lemma(u["lemma"], u["args"], s2, fx, s.lineno)
+                            fx.used.add(u["after"])
+                        for u in hints:
+                            # ghost assertion: proved here (obligation), then available to the rest of the path
+                            for text, f in self.spec_conj(u["facts"], St(dict(s2.env), s2.heap, s2.pc, ghost=dict(s2.ghost)), fx.entry, fx):
+                                self.emit(fx, "hint", s.lineno, s2, f, note="ghost assert " + text)
+                                s2.assume(f)
                             fx.used.add(u["after"])
                         nxt.append(s2)
                     else:
@@ -813,6 +820,8 @@ class Verifier(Engine):
         b = hv.copy()
         b.assume(k < n)
         if self.feasible(b):
+            if iname not in b.env:
+                b.env[iname] = T("i", k)      # ghost: the loop index stays visible to contracts of nested loops
             ecb = self.new_ec(b, fx)
             self.bind_for_target(s.target, get(k), ecb, s.lineno)
             o2, b = self.finish(ecb, b, fx, s.lineno)
